@@ -15,6 +15,11 @@ fn main() {
         let Some(path) = args.get(1) else { usage() };
         std::process::exit(rt::props::replay_file(std::path::Path::new(path)));
     }
+    if args[0] == "--child-c11" {
+        let Some(json) = args.get(1) else { usage() };
+        rt::props::c11::child_main(json);
+        return;
+    }
     if args[0] == "--worker" {
         let Some(mode) = args.get(1) else { usage() };
         rt::props::worker(mode);
